@@ -1,6 +1,6 @@
 (* Dispatch: the single entry point [run : sx -> sx] of the executable model. *)
 From Coq Require Import List ZArith NArith Bool.
-From SV Require Import Sx Str Omap Beat.
+From SV Require Import Sx Str Omap Beat Props Generated.Tables.
 Import ListNotations.
 Open Scope Z_scope.
 
@@ -16,10 +16,22 @@ Definition run_beat (cmd : Z) (args : list sx) : sx :=
   | _, _ => bad_request
   end.
 
+Definition run_props (cmd : Z) (args : list sx) : sx :=
+  match cmd, args with
+  | 180, [m; ops] =>                       (* ordinary mapping history *)
+      do m' <- un_dict m; do ops' <- un_list un_op ops;
+      let '(mf, rs) := run_ops step m' ops' in ok (L [sx_dict mf; sx_list sx_res rs])
+  | 181, [m; ops] =>                       (* SM chart history *)
+      do m' <- un_dict m; do ops' <- un_list un_op ops;
+      let '(mf, rs) := run_ops (smc_step Tables.sm_chart_properties) m' ops' in ok (L [sx_dict mf; sx_list sx_res rs])
+  | _, _ => bad_request
+  end.
+
 Definition run (req : sx) : sx :=
   match req with
   | L (A cmd :: args) =>
       if (140 <=? cmd) && (cmd <? 150) then run_beat cmd args
+      else if (180 <=? cmd) && (cmd <? 190) then run_props cmd args
       else bad_request
   | _ => bad_request
   end.
